@@ -978,7 +978,15 @@ pub fn last_history() -> String {
 }
 
 /// Called by the harness before each call into the crate on behalf of a case.
+/// While set, `history_noise` makes no calls (for cases that are themselves about what two
+/// consecutive calls on one thread do).
+pub static HISTORY_QUIET: std::sync::atomic::AtomicBool = std::sync::atomic::AtomicBool::new(false);
+
 pub fn history_noise() {
+    if HISTORY_QUIET.load(Ordering::Relaxed) {
+        LAST_HISTORY.lock().unwrap().clear();
+        return;
+    }
     let t = HISTORY_TICK.fetch_add(1, Ordering::Relaxed);
     // pseudo-random in the call number (not periodic, so that it cannot fall into step with a
     // suite that makes a fixed number of calls per case), deterministic across runs
